@@ -56,6 +56,7 @@ type Run struct {
 	panicked atomic.Pointer[string]
 	taskPanicIsViolation bool
 	SimTime  time.Duration
+	ended    bool // the run function has returned; clean-ups are running
 	evseq    uint64
 	lastTask int
 	post     []func()
@@ -137,6 +138,13 @@ func (r *Run) Op(format string, a ...interface{}) {
 // Event folds s into the event-log hash (and keeps it when KeepLog).
 func (r *Run) Event(s string) {
 	r.mu.Lock()
+
+	if r.ended {
+		r.mu.Unlock()
+
+		return
+	}
+
 	h := r.EvHash
 	for i := 0; i < len(s); i++ {
 		h ^= uint64(s[i])
@@ -147,7 +155,7 @@ func (r *Run) Event(s string) {
 	h *= 1099511628211
 	r.EvHash = h
 
-	if r.KeepLog && len(r.Events) < 4000 {
+	if r.KeepLog && len(r.Events) < eventCap {
 		r.Events = append(r.Events, s)
 	}
 	r.mu.Unlock()
@@ -155,6 +163,13 @@ func (r *Run) Event(s string) {
 
 func (r *Run) schedEvent(id int, site string) {
 	r.mu.Lock()
+
+	if r.ended { // the teardown of the run is not part of its history
+		r.mu.Unlock()
+
+		return
+	}
+
 	h := r.EvHash
 	h ^= uint64(id)
 	h *= 1099511628211
@@ -166,7 +181,7 @@ func (r *Run) schedEvent(id int, site string) {
 
 	r.EvHash = h
 
-	if r.KeepLog && len(r.Events) < 4000 {
+	if r.KeepLog && len(r.Events) < eventCap {
 		r.Events = append(r.Events, fmt.Sprintf("step %d: task %d %s", r.Steps, id, site))
 	}
 	r.mu.Unlock()
@@ -198,6 +213,13 @@ func (r *Run) Fail(clause, signature, format string, a ...interface{}) bool {
 	v := Violation{Clause: clause, Signature: signature, Detail: fmt.Sprintf(format, a...)}
 
 	r.mu.Lock()
+
+	if r.ended { // a goroutine unwinding after the run: not part of its history
+		r.mu.Unlock()
+
+		return false
+	}
+
 	if r.known != nil && r.known(clause, signature) {
 		v.Known = true
 
@@ -276,11 +298,28 @@ func (r *Run) Guard(site string, fn func()) (panicked bool) {
 // given clause (used where the property says "never a panic").
 func (r *Run) PanicIsViolation() { r.taskPanicIsViolation = true }
 
+// Sleep lets simulated time pass for a harness task and then parks it, so
+// that the kernel (and not the Go runtime) decides in which order tasks that
+// wake at the same simulated instant go on.
+func (r *Run) Sleep(d time.Duration) {
+	time.Sleep(d)
+	r.ForceYield("wake")
+}
+
+var eventCap = 4000
+
+// SetEventCap raises the number of event lines kept per run (development aid).
+func SetEventCap(n int) { eventCap = n }
+
 // Go starts a harness task.
 func (r *Run) Go(name string, fn func()) {
 	r.live.Add(1)
 
+	id := simrt.Reserve()
+
 	go func() {
+		simrt.Adopt(id)
+
 		defer r.live.Add(-1)
 
 		defer func() {
@@ -576,6 +615,14 @@ func Execute(t synctestT, h *Harness, seed, idx uint64, tier string, tape *Tape,
 
 				r.SimTime = time.Since(r.start)
 
+				r.mu.Lock()
+				r.ended = true
+				r.mu.Unlock()
+
+				if k.AdoptMiss > 0 {
+					r.Probes["task_id_by_arrival_order"] += k.AdoptMiss
+				}
+
 				// clean-ups run with the kernel still attached so that close
 				// paths taking simulated locks work; tasks parked meanwhile
 				// are released in order.
@@ -592,6 +639,14 @@ func Execute(t synctestT, h *Harness, seed, idx uint64, tier string, tape *Tape,
 						f := r.cleanups[i]
 						r.Try(f)
 					}
+				}()
+
+				// what is still parked unwinds and exits (and frees what it holds)
+				func() {
+					defer func() { _ = recover() }()
+
+					k.Kill()
+					synctest.Wait()
 				}()
 
 				simrt.Detach(k)
@@ -668,6 +723,9 @@ type Harness struct {
 	Real, Stub []string
 	Rule       string // how cases are generated and what counts as distinct/non-trivial
 	Assumptions []string
+	// Setup runs once per worker process before the first run, outside any
+	// simulation (for what cannot be created inside one, e.g. a listener).
+	Setup func()
 }
 
 var registry = map[string]*Harness{}
